@@ -31,6 +31,10 @@ def legal(c: Case) -> bool:
         return False
     if c.func in ("first", "last") and c.chunks is not None and c.method != "blockwise":
         return False
+    if c.min_count is not None and c.fill is None:
+        return False          # a positive min_count needs a fill_value to put into masked slots
+    if c.func in ARG and c.chunks is not None and c.method == "blockwise" and len(c.chunks) > 1:
+        return False
     if c.chunks is not None:
         if c.method == "cohorts" and (c.dask_labels or c.reindex is True):
             return False
@@ -223,3 +227,16 @@ class C01(ReduceProp):
     def gen(self, rng, tier, i):
         return make_case(rng, chunked=False, nmax=12 if tier == "quick" else 30, expected_modes=["none", "none", "exact", "superset"],
                          mcs=(None,), fills=(None, None, NAN, -7))
+
+
+class C02(ReduceProp):
+    id = "C02"
+    lean_module = "FloxProps.C02"
+    rule = ("seeded generator as C01 but on dask input: method in {None, map-reduce, cohorts, blockwise (sorted labels)}, "
+            "reindex in {None, True, False}, numpy or dask labels, chunkings incl. all-ones / single / uneven, split_every 2-4; "
+            "the oracle is NumPy per group (hence also the eager result via C01); non-trivial/distinct as C01")
+    quick_n = 1200
+    thorough_n = 15000
+
+    def gen(self, rng, tier, i):
+        return make_case(rng, chunked=True, nmax=10 if tier == "quick" else 24, mcs=(None, None, 1, 2))
